@@ -326,6 +326,7 @@ func Run(c *engine.Ctx) {
 		}
 	}
 	graphShapes(c)
+	sizeClasses(c)
 	histories(c)
 	fileHistories(c)
 	writerObjectHistories(c)
@@ -457,6 +458,62 @@ func graphShapes(c *engine.Ctx) {
 		}
 	}
 	rec(nil)
+}
+
+// sizeClasses: totality and determinism on the shared size-class documents (a 40-leaf and a 2000-leaf star, chains 20
+// and 300 deep, a bushy tree, attribute-rich nodes) and on flat lists of 255 / 256 / 257 / 1025 nodes x 8 formats:
+// buffers, worker pools and recursion limits are invisible to documents of four nodes.
+func sizeClasses(c *engine.Ctx) {
+	c.Group("size-classes")
+	lists := gen.WideLists()
+	for _, n := range []int{255, 256, 257, 1025} {
+		nl := &sbom.NodeList{RootElements: []string{"r"}}
+		nl.Nodes = append(nl.Nodes, &sbom.Node{Id: "r", Name: "root"})
+		e := &sbom.Edge{From: "r", Type: sbom.Edge_contains}
+		for i := 1; i < n; i++ {
+			id := fmt.Sprintf("f%04d", i)
+			nl.Nodes = append(nl.Nodes, &sbom.Node{Id: id, Name: "n" + id, Version: "1"})
+			e.To = append(e.To, id)
+		}
+		nl.Edges = []*sbom.Edge{e}
+		lists[fmt.Sprintf("flat%d", n)] = nl
+	}
+	var names []string
+	for n := range lists {
+		names = append(names, n)
+	}
+	sortStrings(names)
+	c.Bound("size-classes", fmt.Sprintf("%d size-class documents %v x 8 formats: error or output, the same output twice", len(names), names))
+	for _, n := range names {
+		for _, f := range rw.AllFormats {
+			n, f := n, f
+			c.Case(func() any { return map[string]string{"document": n, "format": string(f)} }, func(t *engine.T) *engine.Violation {
+				d := sbom.NewDocument()
+				d.Metadata.Id = "urn:uuid:3e671687-395b-41f5-a30f-a58921a69b79"
+				d.NodeList = proto.Clone(lists[n]).(*sbom.NodeList)
+				out1, err1 := rw.Write(d, f, 2)
+				out2, err2 := rw.Write(d, f, 2)
+				t.Transitions(2)
+				if (err1 == nil) != (err2 == nil) {
+					return engine.Violate("nondeterministic", fam(f), "first call err=%v, second call err=%v", err1, err2)
+				}
+				if err1 == nil {
+					if len(out1) == 0 {
+						return engine.Violate("neither", fam(f), "no error and no output")
+					}
+					n1, e1 := rw.NormalizeJSON(out1)
+					n2, e2 := rw.NormalizeJSON(out2)
+					t.Validated(1)
+					if e1 != nil || e2 != nil || n1 != n2 {
+						return engine.Violate("nondeterministic", fam(f), "two serializations of the size-class document %s differ or are not JSON (%v, %v)", n, e1, e2)
+					}
+				}
+				t.State("size|" + n + string(f))
+				t.Outcome(fam(f) + ":size-class")
+				return nil
+			})
+		}
+	}
 }
 
 func fam(f formats.Format) string {
